@@ -80,4 +80,14 @@ ThickEndOK == (mode = "thick" /\ done) =>
   StrokeFails(ln.s, ln.e, ln.w, LinePoints(ln.s, ln.e), out, IsInjective(out), "") = {}
 \* stroke width 1 is the thin line, as sequences (stronger than the property: design-level only)
 ThickW1IsThin == (mode = "thick" /\ done /\ ln.w = 1) => out = LinePoints(ln.s, ln.e)
+\* C02 at the design level for stroked lines: every point the ThickPoints machine returns lies inside the transcribed
+\* styled bounding box (Line::extents -> Rectangle::with_corners, EGLine!LineStyledBoxT)
+LineBoxUsed == LineStyledBoxT(ln.s, ln.e, ln.w)
+\* negative control (cfg: LineBoxUsed <- LineBoxOneSided): only the left extent and the line itself
+LineBoxOneSided == LET x == ExtentsT(ln.s, ln.e, ln.w) IN Envelope(WithCorners(x[1][1], x[1][2]), WithCorners(ln.s, ln.e))
+ThickInsideStyledBox == (mode = "thick" /\ n >= 1) => InRect(LineBoxUsed, out[n])
+\* the extents are parallels of the line: both have the line's direction, and the centre line lies between them
+ExtentsParallel == mode = "thick" =>
+  LET x == ExtentsT(ln.s, ln.e, ln.w) IN
+  \A k \in 1..2 : LET dd == PSub(x[k][2], x[k][1]) IN dd = D \/ dd = PSub(D, PAdd(it.iter.par.psMajor, it.iter.par.psMinor))
 =============================================================================
